@@ -240,6 +240,12 @@ func Canon(r *world.Recv) Msg {
 		m.F = "quads=" + sortedJoin(qs)
 	case *dagazpb.DagazGetGroundPlaneResponse:
 		m.RID = x.RequestId
+		g := x.Ground
+		if g == nil || (g.Extents.GetX() == 0 && g.Extents.GetZ() == 0) {
+			m.F = "ground=miss"
+		} else {
+			m.F = fmt.Sprintf("ground=(%v,%v,%v|%v,%v,%v)", g.Center.GetX(), g.Center.GetY(), g.Center.GetZ(), g.Extents.GetX(), g.Extents.GetY(), g.Extents.GetZ())
+		}
 	case *dagazpb.DagazGetDebugInfoResponse:
 		m.RID = x.RequestId
 		m.F = fmt.Sprintf("planes=%d", x.GridPlaneCount)
